@@ -107,8 +107,7 @@ def _neighbours():
                 pass
         prefs = {PhysicalQuantities.TEMPERATURE: "C", PhysicalQuantities.PRESSURE: "bar", PhysicalQuantities.ANGLE: "deg", PhysicalQuantities.SPEED: "kts"}
         prefs2 = {PhysicalQuantities.TEMPERATURE: "f", PhysicalQuantities.PRESSURE: "psi", PhysicalQuantities.ANGLE: "deg"}
-        st["list"] = [_RealDecoder(preferred_units=prefs),
-                      _RealDecoder(preferred_units=prefs2, build_network_map=True, exclude_manufacturer_code=["Garmin"], dump_to_file="/dev/null")]
+        st["list"] = []
         if HOSTILE["embed"]:
             # built with nothing but defaults, then its settings are edited through its attributes (whatever containers it has)
             n3 = _RealDecoder()
@@ -123,6 +122,10 @@ def _neighbours():
                 except Exception:  # noqa: BLE001
                     pass
             st["list"].append(n3)
+        # (the differently configured neighbours are built LAST: whatever a constructor leaves behind in the class or the module
+        # is then theirs - built first, the default-argument neighbour above would wipe it again; the self-test caught that)
+        st["list"] += [_RealDecoder(preferred_units=prefs),
+                       _RealDecoder(preferred_units=prefs2, build_network_map=True, exclude_manufacturer_code=["Garmin"], dump_to_file="/dev/null")]
         HOSTILE_STATS["neighbours_created"] += len(st["list"])
     return st["list"]
 
